@@ -762,6 +762,7 @@ func runC10(c *Ctx) {
 	c10Literals(c, nlit)
 	c10Nested(c, nlit/2)
 	c10CoreMaps(c, boost["core-argument-maps"])
+	c10RunProvocations(c, boost)
 }
 
 func head(s string, n int) string {
